@@ -554,12 +554,56 @@ def r122b(ctx, fx):
     ctx.floor(rid, 15, "formatter bodies scanned")
 
 
+def r129(ctx, fx):
+    rid = ctx.rule("R12.9", "join_chunks never loses what it has put on the line: where the accumulated `line` is replaced by a part of itself (a slice, one half of a "
+                   "split) — to move a comment-only line to the code column — the replacement is control-dependent on the *other* part being blank "
+                   "(`….trim().is_empty()`); a flag that says nothing was put into one column does not cover what another column holds (a label in front of "
+                   "the comment)")
+    from .c11 import _anc_walk
+    jc = fx.fn("mos_core::formatting::join_chunks")
+    if jc is None or not jc.d.get("hir"):
+        ctx.fail_closed(rid, "formatting::join_chunks not found")
+        return
+    body = jc.hir["body"]
+    # locals that are parts of `line`
+    parts = set()
+    for n in lib.hwalk(body):
+        if n.get("k") in ("let", "letx") and "init" in n:
+            d = repr(lib.hdesc(n["init"]))
+            init_mentions_line = any(y.get("k") == "path" and lib.hpath(y) == "line" for y in lib.hwalk(n["init"]))
+            if init_mentions_line and any(w in d for w in ("split_at", "split_off", "'index'", "get(", "split_once", "rsplit")):
+                parts |= {q["name"] for q in lib.hwalk(n["pat"]) if q.get("k") == "bind"}
+    n_sites = 0
+    for x, anc in _anc_walk(body):
+        if not (x.get("k") == "assign" and lib.hpath(x["l"]) == "line"):
+            continue
+        r = x["r"]
+        from_part = any(y.get("k") == "path" and lib.hpath(y) in parts for y in lib.hwalk(r)) or \
+            any(y.get("k") == "index" and any(z.get("k") == "path" and lib.hpath(z) == "line" for z in lib.hwalk(y.get("a", {}))) for y in lib.hwalk(r))
+        if not from_part:
+            continue
+        n_sites += 1
+        guarded = False
+        for p_, k_ in anc:
+            if p_.get("k") == "if" and k_ == "then":
+                d = repr(lib.hdesc(p_["cond"]))
+                if "trim" in d and "is_empty" in d:
+                    guarded = True
+        key = "join_chunks|line-from-part#%d" % n_sites
+        ctx.inst(rid, key, sample={"line": x.get("ln"), "parts_of_line": sorted(parts), "guarded_by_blankness_of_the_rest": guarded})
+        if not guarded:
+            ctx.finding(rid, key, "join_chunks replaces the line by a part of itself without having tested that the rest is blank: a label that shares the line with "
+                        "nothing but a comment is deleted by the formatter, and what referred to it binds elsewhere or nowhere", "%s:%s" % (jc.file, x.get("ln")))
+    ctx.inst(rid, "join_chunks|scan", sample={"replacements_of_line_by_a_part": n_sites})
+
+
 def run(ctx):
     fx = ctx.facts
     r125(ctx, fx)
     r126(ctx, fx)
     r127(ctx, fx)
     r128(ctx, fx)
+    r129(ctx, fx)
     r121_122(ctx, fx)
     r122b(ctx, fx)
     r123(ctx, fx)
